@@ -42,9 +42,14 @@ ASSUMPTIONS = [
     'labels violating this are ONotEnabled in the model; the first half is C06_trace_no_injective',
     'the order of OnStartPrompt events of different threads may differ from the order of the counter calls; '
     'the label sequence is built in prompt-number order (sound: nothing observable happens between counter() and the event)',
-    'decoys addressed to a FUTURE prompt and queued BEHIND the genuine answer are executed by the real code when that '
-    'prompt opens (C07_decoys_discarded_refuted / finding future-command-executed); the harness generates them only '
-    'behind a gate that makes "not yet open at send time" certain',
+    'two levels: the SYSTEM-level runs (real Nextline, public API, harness/props/c07_system.py) and the child-level family A '
+    '(decoys with issued prompt numbers only) are judged by the property oracle; the child-level family B (every decoy kind, put '
+    'straight into the child\'s queue_in, which only the main process does in production) is judged by the child\'s contract '
+    '(signatures child:...); a command for a FUTURE prompt queued BEHIND the genuine answer IS executed by the child '
+    '(C07_decoys_discarded_refuted, child level only; excluded at system level by the main-process filter, 5be87b5) -- family B '
+    'generates it behind a gate and only compares the model\'s prediction with the real child',
+    'system level: the order in which the main process handles events is taken from a passive plugin (public plugin API); a run in '
+    'which two threads\' prompt numbers reach the main process out of order is not compared with the model (counted)',
 ]
 
 LOGGER_NAME = 'nextline.spawned.plugin.plugins.pdb_.prompt'
